@@ -17,12 +17,13 @@ func TestSeeds(t *testing.T) {
 	f := newFQ(t)
 	lit := func(s string) containers.Payload { return containers.Payload{Kind: "literal", Hex: hexOf(s)} }
 	type seed struct {
-		name string
-		defs string
-		fc   fileCase
+		name   string
+		defs   string
+		fc     fileCase
+		strict bool // repaired defect: a failure is a regression whatever the known list says
 	}
 	var seeds []seed
-	add := func(name, defs string, fc fileCase) { seeds = append(seeds, seed{name, defs, fc}) }
+	add := func(name, defs string, fc fileCase) { seeds = append(seeds, seed{name: name, defs: defs, fc: fc}) }
 
 	// gzip: FNAME only; FNAME+FCOMMENT+FEXTRA
 	for _, m := range []containers.GzipMember{
@@ -36,14 +37,22 @@ func TestSeeds(t *testing.T) {
 		}
 		add("gzip-optional-fields", gzipDefs, gzipFileFrom(spec, data, infos, nil))
 	}
-	// zip: stored member written through a stream (sizes in the data descriptor)
+	// zip: stored members written through a stream (sizes only in the data
+	// descriptor and the central directory) next to a deflated and a pre-sized one;
+	// repaired by props/c15/zip_fix.diff
 	{
-		spec := containers.ZipSpec{Members: []containers.ZipMember{{Name: "a", Method: 0, Mode: "stream", Level: -1, Payload: lit("x")}}}
+		spec := containers.ZipSpec{Members: []containers.ZipMember{
+			{Name: "a", Method: 0, Mode: "stream", Level: -1, Payload: lit("x")},
+			{Name: "b", Method: 8, Mode: "stream", Level: -1, Payload: lit("hello hello hello")},
+			{Name: "c", Method: 0, Mode: "rawdd", Level: -1, Payload: containers.Payload{Kind: "random", Len: 700, Seed: 1}},
+			{Name: "d", Method: 0, Mode: "raw", Level: -1, Payload: lit("stored")},
+			{Name: "e", Method: 0, Mode: "stream", Level: -1, Payload: containers.Payload{Kind: "empty"}},
+		}}
 		data, infos, err := containers.BuildZip(spec)
 		if err != nil {
 			t.Fatal(err)
 		}
-		add("zip-stored-streamed", zipDefs, zipFileFrom(spec, data, infos))
+		seeds = append(seeds, seed{name: "zip-stored-streamed", defs: zipDefs, fc: zipFileFrom(spec, data, infos), strict: true})
 	}
 	// gif: frame with a local colour table, same and different size than the global one
 	for _, spec := range []containers.GIFSpec{
@@ -85,7 +94,11 @@ func TestSeeds(t *testing.T) {
 		}()
 		cs := map[string]any{"seed": s.name, "spec": s.fc.Spec}
 		if fl != nil {
-			if harness.Violate(t.Name(), fl.sig, s.name+": "+fl.msg, cs) {
+			sig := fl.sig
+			if s.strict {
+				sig = "regression:" + sig // not matched by a known: line of the original signature
+			}
+			if harness.Violate(t.Name(), sig, s.name+": "+fl.msg, cs) {
 				t.Errorf("[%s] %s: %s", fl.sig, s.name, fl.msg)
 			}
 			continue
